@@ -646,6 +646,201 @@ Proof.
   - apply except_scan_ok. intros x. apply build_cache_get.
 Qed.
 
+(* ---------- the simple iterators are the definition's combinators, errors included ---------- *)
+Lemma filter_iter_eq f rows : filter_iter f rows = filterM (fun rw => holds (f rw)) rows.
+Proof. induction rows as [|rw t IH]; cbn; [reflexivity|]. rewrite cond_true_holds, IH. reflexivity. Qed.
+
+Lemma project_iter_eq pr rows : project_iter pr rows = mapM pr rows.
+Proof. induction rows as [|rw t IH]; cbn; [reflexivity|]. rewrite IH. reflexivity. Qed.
+
+Lemma join_scan_eq f lo wr l R : forall found,
+  join_scan f lo wr l R found =
+  (do ms <- filterM (fun r => holds (f (l ++ r))) R;
+   Ok (map (app l) ms ++ if lo && negb found && is_nil ms then [l ++ nulls wr] else [])).
+Proof.
+  induction R as [|r t IH]; intros found; cbn [join_scan filterM bind].
+  - cbn. rewrite andb_true_r. reflexivity.
+  - rewrite cond_true_holds. destruct (holds (f (l ++ r))) as [b|e]; cbn [bind]; [|reflexivity].
+    destruct b; rewrite IH; destruct (filterM (fun r0 => holds (f (l ++ r0))) t) as [ms|e]; cbn; try reflexivity.
+    rewrite !andb_false_r. cbn. rewrite app_nil_r. reflexivity.
+Qed.
+
+Lemma join_iter_inner_eq f wr L R : join_iter f false wr L R = inner_join (fun rw => holds (f rw)) L R.
+Proof.
+  unfold inner_join. induction L as [|l t IH]; cbn [join_iter mapM bind]; [reflexivity|].
+  rewrite join_scan_eq, IH. destruct (filterM (fun r => holds (f (l ++ r))) R) as [ms|e]; cbn; [|reflexivity].
+  match goal with |- context [mapM ?F t] => destruct (mapM F t) as [ps|e] end; cbn; [|reflexivity]. rewrite app_nil_r. reflexivity.
+Qed.
+
+Lemma join_iter_left_eq f wr L R :
+  join_iter f true wr L R =
+  outer_join (fun rw => holds (f rw)) (fun l r => l ++ r) (fun l => l ++ nulls wr) L R.
+Proof.
+  unfold outer_join. induction L as [|l t IH]; cbn [join_iter mapM bind]; [reflexivity|].
+  rewrite join_scan_eq, IH. destruct (filterM (fun r => holds (f (l ++ r))) R) as [ms|e]; cbn; [|reflexivity].
+  match goal with |- context [mapM ?F t] => destruct (mapM F t) as [ps|e] end; cbn; [|reflexivity]. destruct ms; cbn; [reflexivity|]. rewrite app_nil_r. reflexivity.
+Qed.
+
+(* ---------- widths: the rows of a query have its static width ---------- *)
+Lemma wf_db_spec d t w rows :
+  wf_db d = true -> nth_error d t = Some (w, rows) -> forall r, In r rows -> length r = w.
+Proof.
+  unfold wf_db. intros H E r Hr. rewrite forallb_forall in H. specialize (H _ (nth_error_In _ _ E)). cbn in H.
+  rewrite forallb_forall in H. apply Nat.eqb_eq. exact (H r Hr).
+Qed.
+
+Lemma dedup_acc_In {A} (eqb : A -> A -> bool) l : forall seen x, In x (dedup_acc eqb seen l) -> In x l.
+Proof.
+  induction l as [|y t IH]; intros seen x; cbn [dedup_acc]; [tauto|].
+  destruct (mem eqb y seen); intros H; [right; exact (IH _ _ H)|].
+  destruct H as [<-|H]; [left; reflexivity|right; exact (IH _ _ H)].
+Qed.
+
+Lemma inter_all_In {A} (eqb : A -> A -> bool) l : forall r x, In x (inter_all eqb l r) -> In x l.
+Proof.
+  induction l as [|y t IH]; intros r x; cbn [inter_all]; [tauto|].
+  destruct (mem eqb y r); intros H; [|right; exact (IH _ _ H)].
+  destruct H as [<-|H]; [left; reflexivity|right; exact (IH _ _ H)].
+Qed.
+
+Lemma except_all_In {A} (eqb : A -> A -> bool) l : forall r x, In x (except_all eqb l r) -> In x l.
+Proof.
+  induction l as [|y t IH]; intros r x; cbn [except_all]; [tauto|].
+  destruct (mem eqb y r); intros H; [right; exact (IH _ _ H)|].
+  destruct H as [<-|H]; [left; reflexivity|right; exact (IH _ _ H)].
+Qed.
+
+Lemma isort_In {A} (leb : A -> A -> bool) l y : In y (isort leb l) -> In y l.
+Proof.
+  assert (Ins : forall x l0, In y (insert leb x l0) -> y = x \/ In y l0).
+  { intros x l0. induction l0 as [|z t IH]; cbn [insert]; [intros [<-|[]]; auto|].
+    destruct (leb x z); intros H.
+    - destruct H as [<-|H]; auto.
+    - destruct H as [<-|H]; [right; left; reflexivity|]. destruct (IH H); [auto|right; right; assumption]. }
+  induction l as [|x t IH]; cbn; [tauto|]. intros H. destruct (Ins _ _ H) as [->|H']; [left; reflexivity|right; exact (IH H')].
+Qed.
+
+Lemma firstn_In' {A} n (l : list A) x : In x (firstn n l) -> In x l.
+Proof. intros H. rewrite <- (firstn_skipn n l). apply in_or_app. left. exact H. Qed.
+Lemma skipn_In' {A} n (l : list A) x : In x (skipn n l) -> In x l.
+Proof. intros H. rewrite <- (firstn_skipn n l). apply in_or_app. right. exact H. Qed.
+
+Lemma mapM_In_out {A B} (f : A -> res B) l out y : mapM f l = Ok out -> In y out -> exists x, In x l /\ f x = Ok y.
+Proof.
+  revert out. induction l as [|x t IH]; cbn [mapM]; intros out H Hy.
+  - injection H as <-. contradiction.
+  - inv_bind H. inv_bind H. injection H as <-. destruct Hy as [<-|Hy]; [exists x; split; [left; reflexivity|exact Ha]|].
+    destruct (IH _ Ha0 Hy) as (x' & Hx' & E). exists x'. split; [right; exact Hx'|exact E].
+Qed.
+
+Lemma concat_mapM_In {A} (F : A -> res (list row)) L parts x :
+  mapM F L = Ok parts -> In x (concat parts) -> exists o ps, In o L /\ F o = Ok ps /\ In x ps.
+Proof.
+  intros H Hx. apply in_concat in Hx. destruct Hx as (ps & Hps & Hx).
+  destruct (mapM_In_out _ _ _ _ H Hps) as (o & Ho & E). exists o, ps. auto.
+Qed.
+
+Lemma join_rows_width onf k wl wr L R rows :
+  (forall l, In l L -> length l = wl) -> (forall r, In r R -> length r = wr) ->
+  join_rows onf k wl wr L R = Ok rows -> forall x, In x rows -> length x = (wl + wr)%nat.
+Proof.
+  intros HL HR H x Hx.
+  assert (Inner : forall rows0, inner_join onf L R = Ok rows0 -> In x rows0 -> length x = (wl + wr)%nat).
+  { unfold inner_join. intros rows0 H0 Hx0. inv_bind H0. injection H0 as <-.
+    destruct (concat_mapM_In _ _ _ _ Ha Hx0) as (l & ps & Hl & E & Hps). inv_bind E. injection E as <-.
+    apply in_map_iff in Hps. destruct Hps as (r & <- & Hr). apply (filterM_In _ _ _ Ha0) in Hr.
+    rewrite app_length, (HL _ Hl), (HR _ (proj1 Hr)). reflexivity. }
+  destruct k; cbn [join_rows] in H; try exact (Inner _ H Hx).
+  - unfold outer_join in H. inv_bind H. injection H as <-.
+    destruct (concat_mapM_In _ _ _ _ Ha Hx) as (l & ps & Hl & E & Hps). inv_bind E. injection E as <-.
+    destruct a0 as [|m ms].
+    + destruct Hps as [<-|[]]. unfold nulls. rewrite app_length, repeat_length, (HL _ Hl). reflexivity.
+    + apply in_map_iff in Hps. destruct Hps as (r & <- & Hr). apply (filterM_In _ _ _ Ha0) in Hr.
+      rewrite app_length, (HL _ Hl), (HR _ (proj1 Hr)). reflexivity.
+  - unfold outer_join in H. inv_bind H. injection H as <-.
+    destruct (concat_mapM_In _ _ _ _ Ha Hx) as (r & ps & Hr & E & Hps). inv_bind E. injection E as <-.
+    destruct a0 as [|m ms].
+    + destruct Hps as [<-|[]]. unfold nulls. rewrite app_length, repeat_length, (HR _ Hr). reflexivity.
+    + apply in_map_iff in Hps. destruct Hps as (l & <- & Hl). apply (filterM_In _ _ _ Ha0) in Hl.
+      rewrite app_length, (HR _ Hr), (HL _ (proj1 Hl)). reflexivity.
+Qed.
+
+Lemma proj_rows_width {A} (ev : A -> expr -> res val) proj kept out dist r :
+  mapM (fun rw => mapM (ev rw) proj) kept = Ok out -> In r (distinct_if dist out) -> length r = length proj.
+Proof.
+  intros H Hr. assert (Hr' : In r out) by (destruct dist; [exact (dedup_acc_In _ _ _ _ Hr)|exact Hr]).
+  destruct (mapM_In_out _ _ _ _ H Hr') as (rw & _ & E). exact (mapM_length _ _ _ E).
+Qed.
+
+Lemma query_width d : wf_db d = true ->
+  forall q, wt_query d q = true -> forall en rows, eval_query d en q = Ok rows ->
+  forall r, In r rows -> length r = qwidth d q.
+Proof.
+  intros Hd. induction q as [t|k l IHl r0 IHr on|src IHsrc wh proj dist|src IHsrc wh keys aggs hav proj dist
+                             |o all l IHl r0 IHr|q IHq keys lim]; intros W en rows H r Hr; cbn [wt_query qwidth] in *.
+  - cbn [eval_query] in H. destruct (nth_error d t) as [[w rws]|] eqn:E; [|discriminate].
+    injection H as <-. exact (wf_db_spec d t w rws Hd E r Hr).
+  - apply andb_prop in W. destruct W as [Wl Wr]. cbn [eval_query] in H. inv_bind H. inv_bind H.
+    exact (join_rows_width _ _ _ _ _ _ _ (IHl Wl _ _ Ha) (IHr Wr _ _ Ha0) H r Hr).
+  - cbn [eval_query] in H. inv_bind H. inv_bind H. inv_bind H. injection H as <-.
+    exact (proj_rows_width (fun rw e => eval_expr d (rw :: en) e) proj _ _ dist r Ha1 Hr).
+  - cbn [eval_query] in H. inv_bind H. inv_bind H. inv_bind H. inv_bind H. inv_bind H. inv_bind H. injection H as <-.
+    exact (proj_rows_width (fun rw e => eval_expr d (rw :: en) e) proj _ _ dist r Ha4 Hr).
+  - apply andb_prop in W. destruct W as [W We]. apply andb_prop in W. destruct W as [Wl Wr].
+    apply Nat.eqb_eq in We. cbn [eval_query] in H. inv_bind H. inv_bind H. injection H as <-.
+    pose proof (IHl Wl _ _ Ha) as HL. pose proof (IHr Wr _ _ Ha0) as HR. rewrite <- We in HR.
+    destruct o, all; cbn [set_op] in Hr.
+    + apply in_app_or in Hr. destruct Hr; auto.
+    + apply dedup_acc_In in Hr. apply in_app_or in Hr. destruct Hr; auto.
+    + apply inter_all_In in Hr. auto.
+    + apply dedup_acc_In in Hr. apply filter_In in Hr. apply HL. tauto.
+    + apply except_all_In in Hr. auto.
+    + apply dedup_acc_In in Hr. apply filter_In in Hr. apply HL. tauto.
+  - cbn [eval_query] in H. inv_bind H. injection H as <-. apply (IHq W _ _ Ha).
+    unfold order_limit in Hr. destruct lim as [[n off]|].
+    + apply firstn_In', skipn_In' in Hr. exact (isort_In _ _ _ Hr).
+    + exact (isort_In _ _ _ Hr).
+Qed.
+
+(* ---------- the transposed right join ---------- *)
+Lemma transpose_app wr r l : length r = wr -> transpose_row wr (r ++ l) = l ++ r.
+Proof.
+  intros <-. unfold transpose_row. rewrite skipn_app, firstn_app, Nat.sub_diag, skipn_all, firstn_all.
+  cbn. rewrite app_nil_r. reflexivity.
+Qed.
+
+Lemma filterM_ext_in {A} (p p' : A -> res bool) l :
+  (forall x, In x l -> p x = p' x) -> filterM p l = filterM p' l.
+Proof.
+  induction l as [|x t IH]; intros H; cbn; [reflexivity|].
+  rewrite (H x (or_introl eq_refl)), (IH (fun y Hy => H y (or_intror Hy))). reflexivity.
+Qed.
+
+(* B LEFT JOIN A on physical rows r ++ l with the re-indexed condition, then transposed, is A RIGHT JOIN B *)
+Lemma transposed_join_ok (ev ev' : row -> res val) wl wr L R rows :
+  sub ev ev' -> (forall r, In r R -> length r = wr) ->
+  outer_join (fun rw => holds (ev rw)) (fun r l => l ++ r) (fun r => nulls wl ++ r) R L = Ok rows ->
+  exists rows0, join_iter (fun x => ev' (transpose_row wr x)) true wl R L = Ok rows0 /\
+                map (transpose_row wr) rows0 = rows.
+Proof.
+  intros S HW. unfold outer_join. intros H. inv_bind H. injection H as <-. rename a into parts.
+  revert parts Ha. induction R as [|r t IH]; cbn [mapM join_iter]; intros parts H.
+  - injection H as <-. exists []. split; reflexivity.
+  - inv_bind H. inv_bind H. injection H as <-. inv_bind Ha. injection Ha as <-. rename a1 into ms.
+    destruct (IH (fun r' Hin => HW r' (or_intror Hin)) _ Ha0) as (rows1 & E1 & M1).
+    assert (Wr : length r = wr) by (apply HW; left; reflexivity).
+    assert (F : filterM (fun l => holds (ev (transpose_row wr (r ++ l)))) L = Ok ms).
+    { rewrite <- Ha1. apply filterM_ext_in. intros l _. rewrite (transpose_app wr r l Wr). reflexivity. }
+    rewrite (join_scan_ok (fun x => ev (transpose_row wr x)) (fun x => ev' (transpose_row wr x)) true wl r L ms false
+               (fun x v Hv => S _ _ Hv) F).
+    cbn [bind]. rewrite E1. cbn [bind]. eexists. split; [reflexivity|].
+    cbn [concat]. rewrite map_app, M1. f_equal. cbn [negb andb].
+    destruct ms as [|m ms']; cbn [is_nil map app].
+    + rewrite (transpose_app wr r _ Wr). reflexivity.
+    + rewrite app_nil_r, (transpose_app wr r m Wr). f_equal.
+      rewrite map_map. apply map_ext. intros l. exact (transpose_app wr r l Wr).
+Qed.
+
 (* ---------- structural induction over the mutually defined expressions and queries ---------- *)
 Section ExprQueryInd.
   Variable P : expr -> Prop.
@@ -730,16 +925,16 @@ Qed.
 
 (* ---------- the refinement, by structural induction ---------- *)
 Definition Pe (e : expr) : Prop :=
-  wf_expr e = true -> forall d en v, eval_expr d en e = Ok v -> eval_pexpr d en (cexpr e) = Ok v.
+  forall d, ok_expr d e = true -> forall en v, eval_expr d en e = Ok v -> eval_pexpr d en (cexpr e) = Ok v.
 Definition Pq (q : query) : Prop :=
-  wf_query q = true -> forall d en rows, eval_query d en q = Ok rows -> exec_env d en (plan_of q) = Ok rows.
+  forall d, ok_query d q = true -> forall en rows, eval_query d en q = Ok rows -> exec_env d en (plan_of q) = Ok rows.
 
-Lemma list_ok l : Forall Pe l -> forallb wf_expr l = true ->
-  forall d en r, mapM (eval_expr d en) l = Ok r -> mapM (eval_pexpr d en) (map cexpr l) = Ok r.
+Lemma list_ok l : Forall Pe l -> forall d, forallb (ok_expr d) l = true ->
+  forall en r, mapM (eval_expr d en) l = Ok r -> mapM (eval_pexpr d en) (map cexpr l) = Ok r.
 Proof.
-  intros F. induction F as [|x t Hx F IH]; cbn [forallb mapM map]; intros W d en r H; [exact H|].
+  intros F. induction F as [|x t Hx F IH]; cbn [forallb mapM map]; intros d W en r H; [exact H|].
   apply andb_prop in W. destruct W as [Wx Wt]. inv_bind H. inv_bind H. injection H as <-.
-  rewrite (Hx Wx _ _ _ Ha). cbn [bind]. rewrite (IH Wt _ _ _ Ha0). reflexivity.
+  rewrite (Hx _ Wx _ _ Ha). cbn [bind]. rewrite (IH _ Wt _ _ Ha0). reflexivity.
 Qed.
 
 Lemma exec_wrap_distinct d en dist p out :
@@ -751,16 +946,16 @@ Qed.
 
 (* WHERE / HAVING, projection and DISTINCT above any input plan *)
 Lemma select_tail_ok wh proj dist p d en rows0 kept out :
-  Pe wh -> Forall Pe proj -> wf_expr wh = true -> forallb wf_expr proj = true ->
+  Pe wh -> Forall Pe proj -> ok_expr d wh = true -> forallb (ok_expr d) proj = true ->
   exec_env d en p = Ok rows0 ->
   filterM (fun rw => holds (eval_expr d (rw :: en) wh)) rows0 = Ok kept ->
   mapM (fun rw => mapM (eval_expr d (rw :: en)) proj) kept = Ok out ->
   exec_env d en (wrap_distinct dist (PProject (map cexpr proj) (PFilter (cexpr wh) p))) = Ok (distinct_if dist out).
 Proof.
   intros Hwh Hproj Wwh Wproj Hp Hf Hm. apply exec_wrap_distinct. cbn [exec_env]. rewrite Hp. cbn [bind].
-  rewrite (filter_iter_ok (fun rw => eval_expr d (rw :: en) wh) _ rows0 kept); [|intros rw v Hv; exact (Hwh Wwh _ _ _ Hv)|exact Hf].
+  rewrite (filter_iter_ok (fun rw => eval_expr d (rw :: en) wh) _ rows0 kept); [|intros rw v Hv; exact (Hwh _ Wwh _ _ Hv)|exact Hf].
   cbn [bind]. apply (project_iter_ok (fun rw => mapM (eval_expr d (rw :: en)) proj)); [|exact Hm].
-  intros rw r Hr. exact (list_ok proj Hproj Wproj _ _ _ Hr).
+  intros rw r Hr. exact (list_ok proj Hproj _ Wproj _ _ Hr).
 Qed.
 
 Ltac split_wf W :=
@@ -771,92 +966,127 @@ Ltac split_wf W :=
 Theorem exec_refines_mut : (forall e, Pe e) /\ (forall q, Pq q).
 Proof.
   apply (expr_query_mut Pe Pq); unfold Pe, Pq.
-  - (* EConst *) intros v _ d en v' H. exact H.
-  - (* ECol *) intros k i _ d en v H. exact H.
-  - (* ECmp *) intros o a b IHa IHb W d en v H. cbn [wf_expr] in W. apply andb_prop in W. destruct W as [Wa Wb].
+  - (* EConst *) intros v d _ en v' H. exact H.
+  - (* ECol *) intros k i d _ en v H. exact H.
+  - (* ECmp *) intros o a b IHa IHb d W en v H. cbn [ok_expr] in W. apply andb_prop in W. destruct W as [Wa Wb].
     cbn [eval_expr] in H. inv_bind H. inv_bind H. cbn [cexpr eval_pexpr].
-    rewrite (IHa Wa _ _ _ Ha), (IHb Wb _ _ _ Ha0). exact H.
-  - (* EArith *) intros o a b IHa IHb W d en v H. cbn [wf_expr] in W. apply andb_prop in W. destruct W as [Wa Wb].
+    rewrite (IHa _ Wa _ _ Ha), (IHb _ Wb _ _ Ha0). exact H.
+  - (* EArith *) intros o a b IHa IHb d W en v H. cbn [ok_expr] in W. apply andb_prop in W. destruct W as [Wa Wb].
     cbn [eval_expr] in H. inv_bind H. inv_bind H. cbn [cexpr eval_pexpr].
-    rewrite (IHa Wa _ _ _ Ha), (IHb Wb _ _ _ Ha0). exact H.
-  - (* EAnd *) intros a b IHa IHb W d en v H. cbn [wf_expr] in W. apply andb_prop in W. destruct W as [Wa Wb].
+    rewrite (IHa _ Wa _ _ Ha), (IHb _ Wb _ _ Ha0). exact H.
+  - (* EAnd *) intros a b IHa IHb d W en v H. cbn [ok_expr] in W. apply andb_prop in W. destruct W as [Wa Wb].
     cbn [eval_expr] in H. inv_bind H. inv_bind H. cbn [cexpr eval_pexpr].
-    rewrite (IHa Wa _ _ _ Ha), (IHb Wb _ _ _ Ha0). exact H.
-  - (* EOr *) intros a b IHa IHb W d en v H. cbn [wf_expr] in W. apply andb_prop in W. destruct W as [Wa Wb].
+    rewrite (IHa _ Wa _ _ Ha), (IHb _ Wb _ _ Ha0). exact H.
+  - (* EOr *) intros a b IHa IHb d W en v H. cbn [ok_expr] in W. apply andb_prop in W. destruct W as [Wa Wb].
     cbn [eval_expr] in H. inv_bind H. inv_bind H. cbn [cexpr eval_pexpr].
-    rewrite (IHa Wa _ _ _ Ha), (IHb Wb _ _ _ Ha0). exact H.
-  - (* ENot *) intros a IHa W d en v H. cbn [wf_expr] in W.
-    cbn [eval_expr] in H. inv_bind H. cbn [cexpr eval_pexpr]. rewrite (IHa W _ _ _ Ha). exact H.
-  - (* EIsNull *) intros a IHa W d en v H. cbn [wf_expr] in W.
-    cbn [eval_expr] in H. inv_bind H. cbn [cexpr eval_pexpr]. rewrite (IHa W _ _ _ Ha). cbn [bind].
+    rewrite (IHa _ Wa _ _ Ha), (IHb _ Wb _ _ Ha0). exact H.
+  - (* ENot *) intros a IHa d W en v H. cbn [ok_expr] in W.
+    cbn [eval_expr] in H. inv_bind H. cbn [cexpr eval_pexpr]. rewrite (IHa _ W _ _ Ha). exact H.
+  - (* EIsNull *) intros a IHa d W en v H. cbn [ok_expr] in W.
+    cbn [eval_expr] in H. inv_bind H. cbn [cexpr eval_pexpr]. rewrite (IHa _ W _ _ Ha). cbn [bind].
     rewrite <- H. destruct a0; reflexivity.
-  - (* EIn *) intros a l IHa IHl W d en v H. cbn [wf_expr] in W. apply andb_prop in W. destruct W as [Wa Wl].
+  - (* EIn *) intros a l IHa IHl d W en v H. cbn [ok_expr] in W. apply andb_prop in W. destruct W as [Wa Wl].
     cbn [eval_expr] in H. inv_bind H. inv_bind H. cbn [cexpr eval_pexpr].
-    rewrite (IHa Wa _ _ _ Ha), (list_ok l IHl Wl _ _ _ Ha0). cbn [bind]. rewrite in_loop_in3. exact H.
-  - (* EExists *) intros q IHq W d en v H. cbn [wf_expr] in W.
-    cbn [eval_expr] in H. inv_bind H. cbn [cexpr eval_pexpr]. rewrite (IHq W _ _ _ Ha). exact H.
-  - (* EInQ *) intros a q IHa IHq W d en v H. cbn [wf_expr] in W. apply andb_prop in W. destruct W as [Wa Wq].
+    rewrite (IHa _ Wa _ _ Ha), (list_ok l IHl _ Wl _ _ Ha0). cbn [bind]. rewrite in_loop_in3. exact H.
+  - (* EExists *) intros q IHq d W en v H. cbn [ok_expr] in W.
+    cbn [eval_expr] in H. inv_bind H. cbn [cexpr eval_pexpr]. rewrite (IHq _ W _ _ Ha). exact H.
+  - (* EInQ *) intros a q IHa IHq d W en v H. cbn [ok_expr] in W. apply andb_prop in W. destruct W as [Wa Wq].
     cbn [eval_expr] in H. inv_bind H. inv_bind H. inv_bind H. cbn [cexpr eval_pexpr].
-    rewrite (IHa Wa _ _ _ Ha), (IHq Wq _ _ _ Ha0). cbn [bind]. rewrite Ha1. cbn [bind]. rewrite in_loop_in3. exact H.
-  - (* EScalar *) intros q IHq W d en v H. cbn [wf_expr] in W.
-    cbn [eval_expr] in H. inv_bind H. cbn [cexpr eval_pexpr]. rewrite (IHq W _ _ _ Ha). exact H.
-  - (* QTable *) intros t _ d en rows H. exact H.
-  - (* QJoin *) intros k l r on IHl IHr IHon W d en rows H. cbn [wf_query] in W. split_wf W.
+    rewrite (IHa _ Wa _ _ Ha), (IHq _ Wq _ _ Ha0). cbn [bind]. rewrite Ha1. cbn [bind]. rewrite in_loop_in3. exact H.
+  - (* EScalar *) intros q IHq d W en v H. cbn [ok_expr] in W.
+    cbn [eval_expr] in H. inv_bind H. cbn [cexpr eval_pexpr]. rewrite (IHq _ W _ _ Ha). exact H.
+  - (* QTable *) intros t d _ en rows H. exact H.
+  - (* QJoin *) intros k l r on IHl IHr IHon d W en rows H. cbn [ok_query] in W. split_wf W.
     cbn [eval_query] in H. inv_bind H. inv_bind H. rename a into L, a0 into R.
-    destruct k; try discriminate; cbn [plan_of exec_env join_rows] in *;
-      rewrite (IHl W2 _ _ _ Ha), (IHr W1 _ _ _ Ha0); cbn [bind].
-    + apply (inner_join_ok (fun rw => eval_expr d (rw :: en) on)); [|exact H].
-      intros rw v Hv. exact (IHon W0 _ _ _ Hv).
-    + rewrite pwidth_plan_of. apply (left_join_ok (fun rw => eval_expr d (rw :: en) on)); [|exact H].
-      intros rw v Hv. exact (IHon W0 _ _ _ Hv).
+    assert (S : sub (fun rw => eval_expr d (rw :: en) on) (fun rw => eval_pexpr d (rw :: en) (cexpr on)))
+      by (intros rw v Hv; exact (IHon _ W0 _ _ Hv)).
+    destruct k; cbn [plan_of exec_env join_rows] in *;
+      rewrite (IHl _ W2 _ _ Ha), (IHr _ W1 _ _ Ha0); cbn [bind].
+    + exact (inner_join_ok _ _ _ L R rows S H).
+    + rewrite pwidth_plan_of. exact (left_join_ok _ _ _ L R rows S H).
+    + apply andb_prop in W. destruct W as [Wd Wt]. rewrite !pwidth_plan_of.
+      destruct (transposed_join_ok _ _ (qwidth d l) (qwidth d r) L R rows S
+                  (fun r0 Hr0 => query_width d Wd r Wt en R Ha0 r0 Hr0) H) as (rows0 & E & M).
+      cbv beta in E. rewrite E. cbn [bind]. rewrite M. reflexivity.
     + rewrite cross_join_ok in H. exact H.
-  - (* QSelect *) intros src wh proj dist IHsrc IHwh IHproj W d en rows H. cbn [wf_query] in W. split_wf W.
+  - (* QSelect *) intros src wh proj dist IHsrc IHwh IHproj d W en rows H. cbn [ok_query] in W. split_wf W.
     cbn [eval_query] in H. inv_bind H. inv_bind H. inv_bind H. injection H as <-. cbn [plan_of].
-    exact (select_tail_ok wh proj dist _ d en _ _ _ IHwh IHproj W1 W0 (IHsrc W _ _ _ Ha) Ha0 Ha1).
-  - (* QGroup *) intros src wh keys aggs hav proj dist IHsrc IHwh IHkeys IHaggs IHhav IHproj W d en rows H.
-    cbn [wf_query] in W. split_wf W.
+    exact (select_tail_ok wh proj dist _ d en _ _ _ IHwh IHproj W1 W0 (IHsrc _ W _ _ Ha) Ha0 Ha1).
+  - (* QGroup *) intros src wh keys aggs hav proj dist IHsrc IHwh IHkeys IHaggs IHhav IHproj d W en rows H.
+    cbn [ok_query] in W. split_wf W.
     cbn [eval_query] in H. inv_bind H. inv_bind H. inv_bind H. inv_bind H. inv_bind H. inv_bind H. injection H as <-.
     cbn [plan_of].
     refine (select_tail_ok hav proj dist _ d en _ _ _ IHhav IHproj W1 W0 _ Ha3 Ha4).
-    cbn [exec_env]. rewrite (IHsrc W _ _ _ Ha). cbn [bind].
-    rewrite (filter_iter_ok (fun rw => eval_expr d (rw :: en) wh) _ _ _ (fun rw v Hv => IHwh W4 _ _ _ Hv) Ha0).
+    cbn [exec_env]. rewrite (IHsrc _ W _ _ Ha). cbn [bind].
+    rewrite (filter_iter_ok (fun rw => eval_expr d (rw :: en) wh) _ _ _ (fun rw v Hv => IHwh _ W4 _ _ Hv) Ha0).
     cbn [bind]. rewrite map_map, map_length.
     apply (group_by_ok (fun rw e => eval_expr d (rw :: en) e) (fun rw e => eval_pexpr d (rw :: en) (cexpr e))
                        aggs (fun rw => mapM (eval_expr d (rw :: en)) keys) _ (length keys) a0 a1 a2).
-    + intros rw r Hr. exact (list_ok keys IHkeys W3 _ _ _ Hr).
+    + intros rw r Hr. exact (list_ok keys IHkeys _ W3 _ _ Hr).
     + intros fe Hin rw v Hv. rewrite Forall_forall in IHaggs. rewrite forallb_forall in W2.
-      exact (IHaggs fe Hin (W2 fe Hin) _ _ _ Hv).
+      exact (IHaggs fe Hin _ (W2 fe Hin) _ _ Hv).
     + exact Ha1.
     + exact Ha2.
-  - (* QSetOp *) intros o all l r IHl IHr W d en rows H. cbn [wf_query] in W. split_wf W.
+  - (* QSetOp *) intros o all l r IHl IHr d W en rows H. cbn [ok_query] in W. split_wf W.
     cbn [eval_query] in H. inv_bind H. inv_bind H. injection H as <-.
-    destruct o; try discriminate; cbn [plan_of exec_env]; rewrite (IHl W _ _ _ Ha), (IHr W0 _ _ _ Ha0); cbn [bind].
+    destruct o; try discriminate; cbn [plan_of exec_env]; rewrite (IHl _ W _ _ Ha), (IHr _ W0 _ _ Ha0); cbn [bind].
     + destruct all; cbn [negb union_iter set_op]; [reflexivity|]. rewrite distinct_iter_ok. reflexivity.
     + destruct all; cbn [negb set_op]; [rewrite intersect_iter_ok|rewrite intersect_distinct_ok]; reflexivity.
     + rewrite except_iter_ok, negb_involutive. reflexivity.
-  - (* QOrder *) intros q keys lim IHq W d en rows H. cbn [wf_query] in W.
+  - (* QOrder *) intros q keys lim IHq d W en rows H. cbn [ok_query] in W.
     cbn [eval_query] in H. inv_bind H. injection H as <-.
-    destruct lim as [[n off]|]; cbn [plan_of exec_env order_limit]; rewrite (IHq W _ _ _ Ha); cbn [bind].
+    destruct lim as [[n off]|]; cbn [plan_of exec_env order_limit]; rewrite (IHq _ W _ _ Ha); cbn [bind].
     + unfold sort_iter. rewrite limit_offset_ok. reflexivity.
     + reflexivity.
 Qed.
 
-(* whenever the definition assigns rows to a covered query (in any environment of outer rows, so also as a
-   correlated subquery), its plan returns exactly these rows, in the same order *)
+(* without RIGHT JOIN the side condition holds for every database *)
+Lemma forallb_imp {A} (p q : A -> bool) l :
+  Forall (fun x => p x = true -> q x = true) l -> forallb p l = true -> forallb q l = true.
+Proof.
+  intros F. induction F as [|x t Hx F IH]; cbn [forallb]; intros H; [reflexivity|].
+  apply andb_prop in H. destruct H as [H1 H2]. rewrite (Hx H1), (IH H2). reflexivity.
+Qed.
+
+Lemma wf_ok_mut d :
+  (forall e, wf_expr e = true -> ok_expr d e = true) /\ (forall q, wf_query q = true -> ok_query d q = true).
+Proof.
+  apply (expr_query_mut (fun e => wf_expr e = true -> ok_expr d e = true)
+                        (fun q => wf_query q = true -> ok_query d q = true));
+    cbn [wf_expr wf_query ok_expr ok_query]; intros;
+    try match goal with k : jkind |- _ => destruct k; try discriminate end;
+    repeat match goal with H : (_ && _)%bool = true |- _ => apply andb_prop in H; destruct H end;
+    repeat (apply andb_true_intro; split); eauto using forallb_imp;
+    match goal with
+    | F : Forall _ ?l, W : forallb _ ?l = true |- forallb _ ?l = true =>
+        exact (forallb_imp (fun fe : aggfn * expr => wf_expr (snd fe)) (fun fe => ok_expr d (snd fe)) l F W)
+    end.
+Qed.
+
+(* whenever the definition assigns rows to a query satisfying the side condition (in any environment of outer
+   rows, so also as a correlated subquery), its plan returns exactly these rows, in the same order *)
+Theorem exec_refines_definition_ok d en q rows :
+  ok_query d q = true -> eval_query d en q = Ok rows -> exec_env d en (plan_of q) = Ok rows.
+Proof. intros W H. exact (proj2 exec_refines_mut q d W en rows H). Qed.
+
+Theorem expr_refines_definition_ok d en e v :
+  ok_expr d e = true -> eval_expr d en e = Ok v -> eval_pexpr d en (cexpr e) = Ok v.
+Proof. intros W H. exact (proj1 exec_refines_mut e d W en v H). Qed.
+
 Theorem exec_refines_definition d en q rows :
   wf_query q = true -> eval_query d en q = Ok rows -> exec_env d en (plan_of q) = Ok rows.
-Proof. intros W H. exact (proj2 exec_refines_mut q W d en rows H). Qed.
+Proof. intros W. exact (exec_refines_definition_ok d en q rows (proj2 (wf_ok_mut d) q W)). Qed.
 
 Theorem expr_refines_definition d en e v :
   wf_expr e = true -> eval_expr d en e = Ok v -> eval_pexpr d en (cexpr e) = Ok v.
-Proof. intros W H. exact (proj1 exec_refines_mut e W d en v H). Qed.
+Proof. intros W. exact (expr_refines_definition_ok d en e v (proj1 (wf_ok_mut d) e W)). Qed.
 
 (* the two readings the differential run uses: a sequence under ORDER BY, a bag otherwise *)
 Corollary exec_refines_bag d q rows :
-  wf_query q = true -> eval_query d [] q = Ok rows ->
+  ok_query d q = true -> eval_query d [] q = Ok rows ->
   exists out, exec d (plan_of q) = Ok out /\ Permutation out rows /\
               (forall q' keys lim, q = QOrder q' keys lim -> out = rows).
 Proof.
-  intros W H. exists rows. split; [exact (exec_refines_definition d [] q rows W H)|].
+  intros W H. exists rows. split; [exact (exec_refines_definition_ok d [] q rows W H)|].
   split; [apply Permutation_refl|reflexivity].
 Qed.
